@@ -1,6 +1,7 @@
 package props
 
 import (
+	"context"
 	"fmt"
 	"html/template"
 	"strings"
@@ -233,7 +234,7 @@ func init() {
 			return s
 		},
 		Run:  c09Run,
-		Rule: "nestings of {for over a slice / an Iterator / a map, user-function call, partial with data, contentFor+contentOf with data, contentOf default block with data, block helper using BlockWith(child), block helper using Block(), if, contentFor defined at top level and used at the inner level, one contentFor block used twice (with and without data), one data map held in a variable and passed to two partial calls}; at each level every subset of {let fresh_l, shadowing let o, assignment o = …}; every name (o, fresh names, loop variables, parameters, data names of every level) is probed at the end of each body, after each construct closes and at the end of the template; compared with an environment-chain reference model (let/assign bind in the current scope, lookup outward; for/call/partial/contentOf/BlockWith open a scope, if and Block() do not; a far contentFor block runs in a child of its definition scope). (repeat) every scope-opening construct entered twice or more from the same place (a function called from two tags / from every loop iteration / recursively, a partial and a contentOf rendered twice, a partial that renders its own text recursively with the cache off and on, a loop run twice, BlockWith twice): the body reads a name BEFORE its own let of that name, or lets it on one path only - every entry must see the outer value (or nothing), never what an earlier entry (of this or another function) bound; an outer variable / context value named like a built-in helper read two and three scopes down (function in function, loop in function, partial in partial); a name bound to nil inside (loop variable, parameter, let, partial / contentOf data) hides the same-named outer variable. Non-trivial: depth >= 2 with at least one binding action.",
+		Rule: "nestings of {for over a slice / an Iterator / a map, user-function call, partial with data, contentFor+contentOf with data, contentOf default block with data, block helper using BlockWith(child), block helper using Block(), if, contentFor defined at top level and used at the inner level, one contentFor block used twice (with and without data), one data map held in a variable and passed to two partial calls}; at each level every subset of {let fresh_l, shadowing let o, assignment o = …}; every name (o, fresh names, loop variables, parameters, data names of every level) is probed at the end of each body, after each construct closes and at the end of the template; compared with an environment-chain reference model (let/assign bind in the current scope, lookup outward; for/call/partial/contentOf/BlockWith open a scope, if and Block() do not; a far contentFor block runs in a child of its definition scope). (repeat) every scope-opening construct entered twice or more from the same place (a function called from two tags / from every loop iteration / recursively, a partial and a contentOf rendered twice, a partial that renders its own text recursively with the cache off and on, a loop run twice, BlockWith twice): the body reads a name BEFORE its own let of that name, or lets it on one path only - every entry must see the outer value (or nothing), never what an earlier entry (of this or another function) bound; one partial / contentOf call site evaluated in different scopes (function called twice, inner loop re-entered, stored block used with different data); names carried by a wrapped Go context (NewContextWithContext) read in every scope; an outer variable / context value named like a built-in helper read two and three scopes down (function in function, loop in function, partial in partial); a name bound to nil inside (loop variable, parameter, let, partial / contentOf data) hides the same-named outer variable. Non-trivial: depth >= 2 with at least one binding action.",
 		Bound: func(th bool) string {
 			if th {
 				return "depth <=3, all 8 action subsets per level"
@@ -325,6 +326,7 @@ func c09Repeat(t *engine.T) {
 		{"BlockWith(child) twice by one helper", `<% let x = "outer" %><%= twice() { %>` + probeX + `/<% let x = "inner" %>` + probeX + `,<% } %>|<%= x %>`, "outer/inner,outer/inner,|outer"},
 		{"an outer variable named like a built-in helper stays readable two and three scopes down", `<% let len = "L" %><% let truncate = "T" %><% let g = fn() { return len + truncate } %><% let f = fn() { return g() + "/" + len } %><% let h = fn() { %><%= for (i) in [1] { %><%= len %><%= f() %><% } %><% } %><%= g() %>|<%= f() %>|<%= h() %>|<%= partial("plen2") %>|<%= len %>`, "LT|LT/L|LLT/L|[L(LT)]|L"},
 		{"context data named like a built-in helper stays readable two and three scopes down", `<% let g = fn() { return env } %><% let f = fn() { return g() + "/" + env } %><%= f() %>|<%= for (i) in [1] { %><%= f() %><% } %>|<%= partial("penv2") %>`, "staging/staging|staging/staging|[staging(staging)]"},
+		{"one call site of partial / contentOf evaluated in different scopes", `<% let f = fn(n) { %><%= partial("pn") %><% } %><%= f(1) %><%= f(2) %>|<%= for (a) in [1, 2] { %><%= for (b) in [a] { %><%= partial("pab") %><% } %><% } %>|<% contentFor("cc") { %>[<%= partial("pd2") %>]<% } %><%= contentOf("cc", {"d": 1}) %><%= contentOf("cc", {"d": 2}) %>|<% let g = fn(n) { %><%= contentOf("undef", {"k": n}) { %>(<%= k %><%= n %>)<% } %><% } %><%= g(1) %><%= g(2) %>`, "[n=1][n=2]|[1.1][2.2]|[d1][d2]|(11)(22)"},
 		{"one function's let does not show in another function's body", `<% let t = "outer" %><% let f = fn() { let t = "two"
  return t } %><% let g = fn() { return t } %><% let h = fn(t) { return t } %><%= g() %>|<%= f() %>|<%= g() %>|<%= h("p") %>|<%= g() %>|<%= t %>`, "outer|two|outer|p|outer|outer"},
 		{"a loop variable bound to nil hides the outer variable", `<% let x = "outer" %><%= for (x) in mixednil { %>[<%= if (x) { %><%= x %><% } else { %>nil<% } %>]<% } %>|<%= x %>`, "[1][nil][3]|outer"},
@@ -362,6 +364,19 @@ func c09Repeat(t *engine.T) {
 			return "repeat", nil
 		})
 	}
+	// names carried by the Go context a plush context wraps are outer variables too: readable in every scope
+	t.Case("repeat names from a wrapped Go context", true, func() (string, *engine.Fail) {
+		plush.CacheEnabled = false
+		ctx := plush.NewContextWithContext(context.WithValue(context.Background(), "user", "Ann"))
+		ctx.Set("partialFeeder", func(string) (string, error) { return `[<%= user %>]`, nil })
+		src := `<%= user %>|<%= for (i) in [1] { %><%= user %><% } %>|<% let f = fn() { return user } %><%= f() %>|<%= partial("p") %>|<% contentFor("c") { %><%= user %><% } %><%= contentOf("c") %>|<%= contentOf("u") { %><%= user %><% } %>|<%= for (i) in [1] { %><%= for (j) in [1] { %><%= f() %><% } %><% } %>`
+		out, err := plush.Render(src, ctx)
+		want := "Ann|Ann|Ann|[Ann]|Ann|Ann|Ann"
+		if err != nil || out != want {
+			return "", engine.Failf("mismatch", "expected %q, got %q / %v", want, out, err)
+		}
+		return "repeat", nil
+	})
 	for _, c := range cases {
 		c := c
 		t.Case("repeat "+c.name+" "+q(c.src), true, func() (string, *engine.Fail) {
@@ -369,6 +384,7 @@ func c09Repeat(t *engine.T) {
 				"px":   `<%= x %>/<% let x = "inner" %><%= x %>`,
 				"pt":   `<% if (n == 1) { let t = "T" } %><%= if (t) { %>F<% } else { %>-<% } %><%= n %>`,
 				"pnil": `<%= if (x) { %><%= x %><% } else { %>nil<% } %>`,
+				"pn":   `[n=<%= n %>]`, "pab": `[<%= a %>.<%= b %>]`, "pd2": `d<%= d %>`,
 				"plen2": `[<%= len %><%= partial("plen3") %>]`, "plen3": `(<%= len %><%= truncate %>)`,
 				"penv2": `[<%= env %><%= partial("penv3") %>]`, "penv3": `(<%= env %>)`,
 			})
